@@ -324,7 +324,13 @@ def classify(res, q):
     ub = [p for p in viol if (p.get('loc') or {}).get('file', '').startswith(B.REPO) and
           re.match(r'(dereference failure|pointer |array |memcpy |memset |free )', p['desc'] or '')]
     res['ub_in_repo'] = ub
-    if inconc and not ub:
+    # A failed unwinding assertion cuts the paths that go beyond the bound; every path CBMC did
+    # explore is a genuine execution prefix, so an obligation that fails on one of them is a real
+    # counterexample.  (Not so for a failed "bound:/model:/harness:" item: there the environment
+    # model itself was left, and nothing downstream is trusted.)
+    only_unwind = bool(inconc) and all('unwinding assertion' in (p['desc'] or '') or 'recursion unwinding' in (p['desc'] or '')
+                                       for p in inconc)
+    if inconc and not ub and not (only_unwind and viol):
         res['status'] = 'inconclusive'
     elif viol:
         res['status'] = 'violation'
